@@ -16,10 +16,11 @@
    strictly monotone in the ticks for a constant boot time, so the [<=] tests of the
    code are modelled on ticks (float layer trusted, see notes).
 
-   The four booleans of [fixes] stand for the four repairs found with this check and
+   The five booleans of [fixes] stand for the five repairs found with this check and
    committed to /repo (6afb079 children() never returns the caller, 3959fba parent()
    checks the caller's identity first, e202d3b parents() keeps a seen set, 671469c parents()
-   ends the chain when an ancestor vanishes during the walk):
+   ends the chain when an ancestor vanishes during the walk, e49a6c9 parent()/children() compare
+   start times on one clock):
    [as_is] (all true) = the code as it is now, [before_fixes] = the code before them
    (kept so that the old defects stay stated, and reverting a repair is modelled).
    [before_nsp_fix] = the code before the fourth only. *)
@@ -32,15 +33,14 @@ Record fixes := { fx_skip_self : bool;       (* children(): never yield the call
                   fx_parents_seen : bool;    (* parents(): stop at the first repeated PID *)
                   fx_parent_reuse : bool;    (* parent(): identity pre-check before the lowest-PID stop *)
                   fx_parents_nsp : bool;     (* parents(): an ancestor that vanished mid-walk ends the chain *)
-                  fx_mono : bool }.          (* age tests compare start times since boot (proposed repair
-                                                notes/fixes/C05-compare-start-times-on-one-clock.diff; not in /repo) *)
+                  fx_mono : bool }.          (* age tests compare start times since boot *)
 Definition as_is : fixes :=
-  {| fx_skip_self := true; fx_parents_seen := true; fx_parent_reuse := true; fx_parents_nsp := true; fx_mono := false |}.
+  {| fx_skip_self := true; fx_parents_seen := true; fx_parent_reuse := true; fx_parents_nsp := true; fx_mono := true |}.
 Definition before_fixes : fixes :=
   {| fx_skip_self := false; fx_parents_seen := false; fx_parent_reuse := false; fx_parents_nsp := false; fx_mono := false |}.
-(* the code as it is plus the proposed repair of the age tests *)
-Definition with_mono : fixes :=
-  {| fx_skip_self := true; fx_parents_seen := true; fx_parent_reuse := true; fx_parents_nsp := true; fx_mono := true |}.
+(* the code before the fifth repair only (e49a6c9: age tests on one clock) *)
+Definition before_mono_fix : fixes :=
+  {| fx_skip_self := true; fx_parents_seen := true; fx_parent_reuse := true; fx_parents_nsp := true; fx_mono := false |}.
 (* the code between the first three repairs and the fourth *)
 Definition before_nsp_fix : fixes :=
   {| fx_skip_self := true; fx_parents_seen := true; fx_parent_reuse := true; fx_parents_nsp := false; fx_mono := false |}.
